@@ -7,6 +7,7 @@ import (
 	"go/types"
 	"math/big"
 	"strings"
+	"sync"
 
 	"golang.org/x/tools/go/ssa"
 )
@@ -229,8 +230,27 @@ func fieldHeapName(owner string, f *types.Var, suffix string) string {
 
 // ownerName names the struct type that owns a field for heap naming.
 func ownerName(t types.Type) string {
+	// types defined as "type B A" share A's struct (conversions reinterpret the same memory), so
+	// field heaps are named after one canonical owner per underlying struct
+	if st, ok := t.Underlying().(*types.Struct); ok {
+		ownerMu.Lock()
+		defer ownerMu.Unlock()
+		if n, ok := ownerCanon[st]; ok {
+			return n
+		}
+		n := typeName(t)
+		if named, ok := types.Unalias(t).(*types.Named); ok {
+			// prefer the name of the type the struct literal belongs to (the root of the chain)
+			n = typeName(named)
+		}
+		ownerCanon[st] = n
+		return n
+	}
 	return typeName(t)
 }
+
+var ownerMu sync.Mutex
+var ownerCanon = map[*types.Struct]string{}
 
 // ---------- zero values and fresh symbolic values
 
